@@ -322,7 +322,6 @@ func c10tGenValueText(r *common.Rand) c10tCase {
 	return c10tRun(cls, ty, ps.print(j))
 }
 
-
 // c10tUs: "~u" stands for a backslash followed by u (kept out of the source so that no tool rewrites the escapes)
 func c10tUs(xs []string) []string {
 	out := make([]string, len(xs))
